@@ -27,7 +27,7 @@ const (
 	kIP // list-intro paragraph (ends with a colon)
 	kFL // flat list, 3 items
 	kNL // nested list, 5 items, levels 0,1,2,1,0
-	kTB // 2x2 table
+	kTB // table; 2x2 unless docSpec.tbShape names another entry of tableShapes
 	kIA // image with alt text
 	kIN // image without alt text
 	nKinds
@@ -75,6 +75,7 @@ type docSpec struct {
 	hrep    string   // "elem": headings are *model.Heading elements; "toc": headings are *model.Paragraph elements matched by Layout.Headings
 	layout  bool     // fill Page.Layout (always true for hrep=toc)
 	lpToks  int      // number of words in a long paragraph
+	tbShape string   // shape of every table element (tableShapes; "" = 2x2)
 	// section-forming headings are those with level <= majorMax (rag.ChunkerConfig.MinHeadingLevel for the
 	// layout-based chunker; 6 for the document-integration chunker)
 	majorMax int
@@ -94,6 +95,34 @@ func (s docSpec) String() string {
 		}
 	}
 	return strings.Join(ps, "|")
+}
+
+// tableShape: cells per row (row 0 is the header row of the pipe table), words per cell (the first cell
+// has one more), and optionally one empty cell. Every non-empty cell carries unique words; the expected
+// order is row-major.
+type tableShape struct {
+	name  string
+	rows  []int
+	words int
+	empty []int // {row, col} of a cell without text
+}
+
+var tableShapes = []tableShape{
+	{name: "2x2", rows: []int{2, 2}, words: 1},
+	{name: "1x1", rows: []int{1}, words: 1},
+	{name: "1x3-header-only", rows: []int{3}, words: 1},
+	{name: "3x1", rows: []int{1, 1, 1}, words: 1},
+	{name: "2x3", rows: []int{3, 3}, words: 1},
+	{name: "3x2", rows: []int{2, 2, 2}, words: 1},
+	{name: "ragged-wider-row", rows: []int{2, 3}, words: 1},        // a data row with more cells than the header
+	{name: "ragged-merged-header", rows: []int{1, 3, 2}, words: 1}, // header with one spanning cell
+	{name: "ragged-narrower-row", rows: []int{3, 1}, words: 1},     // a data row with fewer cells than the header
+	{name: "ragged-mixed", rows: []int{2, 3, 1, 2}, words: 1},      // wider, narrower, equal
+	{name: "ragged-wider-last", rows: []int{2, 2, 4}, words: 1},    // only the last row is wider
+	{name: "empty-data-cell", rows: []int{2, 2}, words: 1, empty: []int{1, 0}},
+	{name: "empty-header-cell", rows: []int{2, 2}, words: 1, empty: []int{0, 1}},
+	{name: "header-without-cells", rows: []int{0, 2}, words: 1},
+	{name: "4x3-two-words", rows: []int{3, 3, 3, 3}, words: 2}, // ~270 characters: larger than the small and tiny maxima
 }
 
 type tokGen struct{ n int }
@@ -201,19 +230,30 @@ func build(s docSpec) *built {
 					page.Layout.Lists = append(page.Layout.Lists, model.ListInfo{Type: model.ListTypeBullet, Items: items, BBox: bbox, Nested: k == kNL})
 				}
 			case k == kTB:
-				t := model.NewTable(2, 2)
-				for r := 0; r < 2; r++ {
-					for c := 0; c < 2; c++ {
-						n := 1
+				sh := tableShapes[0]
+				for _, x := range tableShapes {
+					if x.name == s.tbShape {
+						sh = x
+					}
+				}
+				t := &model.Table{Confidence: 1, BBox: bbox}
+				for r, nc := range sh.rows {
+					row := make([]model.Cell, nc)
+					for c := range row {
+						row[c] = model.Cell{RowSpan: 1, ColSpan: 1, IsHeader: r == 0}
+						if sh.empty != nil && sh.empty[0] == r && sh.empty[1] == c {
+							continue // an empty cell
+						}
+						n := sh.words
 						if r == 0 && c == 0 {
-							n = 2
+							n++
 						}
 						w := g.words(n)
 						info.toks = append(info.toks, w...)
-						t.Rows[r][c].Text = strings.Join(w, " ")
+						row[c].Text = strings.Join(w, " ")
 					}
+					t.Rows = append(t.Rows, row)
 				}
-				t.BBox = bbox
 				page.AddElement(t)
 			case k == kIA:
 				info.toks = g.words(2)
